@@ -360,6 +360,6 @@ func build(tier string) ([]runner.Instance, time.Duration) {
 }
 
 func main() {
-	runner.Main(runner.Options{Property: "C04", Level: "exploration", Build: build,
+	runner.Main(runner.Options{Property: "C04", Level: "exploration", Build: build, RacePoints: true,
 		Assume: []string{"model of sync/context/channels in verif/vs (DESIGN §2.2)", "every goroutine is known to the scheduler: an execution ends clean only if all of them returned", "small scope: <=3 items, <=2 workers"}})
 }
